@@ -116,6 +116,7 @@ static mjData* d = NULL;
 typedef struct { const char* name; double* buf; long cnt; } Field;
 static Field F[9];
 static int have_warm = 0;
+static mjOption opt0;   // the compiled options (restored by settle so that a replay does not depend on earlier solve ops)
 
 static long field_size(const char* f) {
   if (!strcmp(f, "qpos")) return m->nq;
@@ -152,6 +153,7 @@ static void load_state(void) {
 }
 
 static void op_settle(int n) {
+  m->opt = opt0;
   load_state();
   for (int i = 0; i < n; i++) mj_step(m, d);
   memcpy(F[0].buf, d->qpos, 8 * m->nq); memcpy(F[1].buf, d->qvel, 8 * m->nv); memcpy(F[2].buf, d->act, 8 * m->na);
@@ -261,7 +263,7 @@ int main(void) {
       m = mjb_compile(stdin, &spec, err, sizeof err);
       if (m) d = mj_makeData(m);
       if (!m || !d) printf("error %s\n", m ? "makeData" : err);
-      else { alloc_fields(); printf("ok %d %d %d\n", (int)m->nq, (int)m->nv, (int)m->nbody); }
+      else { opt0 = m->opt; alloc_fields(); printf("ok %d %d %d\n", (int)m->nq, (int)m->nv, (int)m->nbody); }
     } else if (strcmp(op, "state") && strcmp(op, "solve") && strcmp(op, "settle")) {
       printf("bad-op\n");
     } else if (!m || !d) {
